@@ -5,6 +5,7 @@ package main
 
 import (
 	"context"
+	"fmt"
 	"os"
 	"path/filepath"
 	"sync/atomic"
@@ -12,6 +13,7 @@ import (
 
 	"github.com/restic/restic/internal/backend"
 	"github.com/restic/restic/internal/backend/all"
+	"github.com/restic/restic/internal/backend/local"
 	"github.com/restic/restic/internal/global"
 	"github.com/restic/restic/internal/options"
 	"github.com/restic/restic/internal/repository"
@@ -49,4 +51,34 @@ func verifRun(t testing.TB, ctx context.Context, gopts global.Options, fn func(c
 	return withTermStatus(t, gopts, func(_ context.Context, gopts global.Options) error {
 		return fn(ctx, gopts)
 	})
+}
+
+// verifGoptsRouted is verifGopts for commands that open two repositories (copy): every named backend gets
+// its own empty local directory as location, and the test hook swaps in the backend registered for the
+// directory the command opened.  The returned options have Repo set to the directory of `primary`.
+func verifGoptsRouted(t testing.TB, scratch string, routes map[string]backend.Backend, primary, password string) (global.Options, map[string]string) {
+	dirs := map[string]string{}
+	byDir := map[string]backend.Backend{}
+	for name, be := range routes {
+		dir := filepath.Join(scratch, "emptyrepo-"+name)
+		if err := os.MkdirAll(dir, 0o700); err != nil {
+			t.Fatal(err)
+		}
+		dirs[name] = dir
+		byDir[dir] = be
+	}
+	gopts := verifGopts(t, scratch, nil, password)
+	gopts.Repo = dirs[primary]
+	gopts.BackendTestHook = func(opened backend.Backend) (backend.Backend, error) {
+		l := backend.AsBackend[*local.Local](opened)
+		if l == nil {
+			return nil, fmt.Errorf("verif: unexpected backend type %T", opened)
+		}
+		be, ok := byDir[l.Path]
+		if !ok {
+			return nil, fmt.Errorf("verif: no backend registered for %v", l.Path)
+		}
+		return be, nil
+	}
+	return gopts, dirs
 }
